@@ -110,6 +110,8 @@ def main(tier, seed):
             for d in DAMAGES:
                 if d in ('stray', 'index_garbage', 'index_empty') and s != skels[0]:
                     continue
+                if tier == 'quick' and d == 'truncate' and s != skels[0]:
+                    continue          # truncation of the second history: thorough tier only (the most expensive damage kind)
                 j = dict(skel=s if not d.startswith('index') else s + ',n', backend=b, damage=d)
                 if tier == 'quick':
                     # broad set with small entries (one block); entries up to 32 MiB (multi-unit blocks) only for the damages whose
